@@ -353,4 +353,57 @@ theorem faRun_cut {s0 sF : FaSt} {a' t : Seq} {e : UInt8} {rs : List Rec} (he : 
                 · intro hh; rw [hh] at hne; simp at hne
                 · rfl
 
+/-- a non-empty run of end-of-line bytes from state 6 ends with `previous` = end of line -/
+theorem faRun_s6_eols_true : ∀ (e : Seq) (id d sq : Seq) (pe : Bool), AllEol e → e ≠ [] →
+    faRun (.s6 id d sq pe) e = .ok (.s6 id d sq true, []) := by
+  intro e
+  induction e with
+  | nil => intro id d sq pe _ h; exact absurd rfl h
+  | cons c t ih =>
+    intro id d sq pe hall _
+    have hc : isEol c = true := hall c (by simp)
+    have ht : AllEol t := fun x hx => hall x (by simp [hx])
+    have hstep : faStep (.s6 id d sq pe) c = .ok (.s6 id d sq true, none) := by
+      rcases eol_cases hc with rfl | rfl <;> simp [faStep, isSep, isEol, isSpace]
+    cases t with
+    | nil => simp only [faRun, hstep]; rfl
+    | cons c' t' =>
+      have := ih id d sq true ht (by simp)
+      simp only [faRun, hstep] at this ⊢
+      rw [this]; rfl
+
+/-- the loop and the final record, without the `Peek` checks on the first two bytes -/
+def faBody (c : Seq) : Except Fatal (List Rec) :=
+  match faRun .s0 c with
+  | .error e => .error e
+  | .ok (s, rs) =>
+    match faFinish s with
+    | .error e => .error e
+    | .ok l => .ok (rs ++ l)
+
+/-- on a chunk that starts with `>` and has a second byte the `Peek` checks are subsumed by the loop -/
+theorem parseFasta_eq_body (b : UInt8) (t : Seq) : parseFasta (62 :: b :: t) = faBody (62 :: b :: t) := by
+  by_cases hb : b = 32
+  · subst hb
+    simp [parseFasta, faBody, faRun, faStep, isSep, isSpace]
+  · have : (b == 32) = false := by simpa using hb
+    simp only [parseFasta, faBody, this]
+    rfl
+
+/-- a whole-records chunk starts with `>` and a second byte -/
+theorem complete_shape {c : Seq} {rs : List Rec} {id d sq : Seq} (h : FaComplete c rs id d sq) :
+    ∃ b t, c = 62 :: b :: t := by
+  obtain ⟨pe, hrun⟩ := h
+  cases c with
+  | nil => simp [faRun] at hrun
+  | cons a t =>
+    have ha : a = 62 := by
+      apply Classical.byContradiction
+      intro hne
+      simp [faRun, faStep, hne] at hrun
+    subst ha
+    cases t with
+    | nil => simp [faRun, faStep] at hrun
+    | cons b t' => exact ⟨b, t', rfl⟩
+
 end ObiVerif.Parse
